@@ -24,6 +24,8 @@ pub enum Leg {
     Matrix,
     /// the program stream on the feature sets that include `logger`, with a recording logger
     MatrixLogger,
+    /// schedule exploration with shuttle (vsched binary, hooks on)
+    Sched { quick: u32, thorough: u32 },
 }
 
 pub struct PropSpec {
@@ -72,6 +74,26 @@ pub fn all() -> Vec<PropSpec> {
             "Actor::id()/LogID values and logger output are not part of the trace (documented to differ without the logger feature)",
         ],
     });
+    let a_sched: Vec<&'static str> = vec![
+        "stakker is rebuilt with --cfg uazu_stakker_verif so that sync/waker.rs, sync/channel.rs and sync/thread.rs use shuttle's Arc/Mutex/Condvar/AtomicUsize/thread::spawn; every atomic or lock operation is a scheduling point (features inter-thread, multi-stakker, multi-thread so that a Stakker abandoned by a failed execution does not block the next one)",
+        "shuttle explores sequentially consistent interleavings only; Mutex and Condvar are trusted as primitives; weak-memory reorderings are outside this leg",
+        "the main thread calls poll_wake() only in response to poll-waker callbacks (an event loop blocked on a condvar standing in for poll()); a lost wake-up shows up as a missing delivery at quiescence or as a deadlock reported by shuttle",
+        "trusted: rustc/std, proptest, shuttle's scheduler and its replacement primitives",
+    ];
+    for (id, rule) in [
+        ("C11", "cases = (scenario, schedule) executions; scenario bytes decode into 1-4 wakers placed in the same bitmap word, in different words (64 fillers) or in different bitmaps (4100 fillers), 1-3 worker threads with scripts of wake/yield/drop-reference/panic, the main thread answering poll-wakes; each scenario runs under the byte-driven schedule and 8 (quick) / 24 (thorough) seeded random and PCT (depth 1-5) schedules; non-trivial = at least two threads call wake(); distinct = distinct (scenario, schedule) pairs"),
+        ("C12", "as C11 with scripts weighted towards dropping references (also by unwinding from a panicking worker), the main thread holding and dropping references between polls and creating new wakers (optionally waking them) after each observed deleted=true so that freed slots are reused; non-trivial = a reference is dropped in mid-script or by unwinding, or a slot is reused by a new waker; distinct = distinct (scenario, schedule) pairs"),
+        ("C13", "scenario bytes decode into 1-3 sender threads sending 1-2 messages each with is_closed polls and yields, the ChannelGuard dropped before collection, after k answered poll-wakes, or only at the end; non-trivial = at least two senders or a guard drop while senders may still run; distinct = distinct (scenario, schedule) pairs"),
+        ("C14", "scenario bytes decode into a worker script over recv/send/cancel/yield with a panic inserted at any script position (echo shape: main sends k messages and waits for k replies before dropping, so a lost notification cannot be masked by cancellation; free shape: main never blocks before the final drop) and a main script of sends, yields and poll responses; non-trivial = the worker script has at least two recv/send operations; distinct = distinct (scenario, schedule) pairs"),
+    ] {
+        v.push(PropSpec {
+            min_nontrivial: 500,
+            id,
+            legs: vec![Leg::Sched { quick: 320_000, thorough: 6_000_000 }],
+            rule,
+            assumptions: a_sched.clone(),
+        });
+    }
     v.push(PropSpec {
         min_nontrivial: 200,
         id: "C20",
@@ -211,6 +233,11 @@ pub fn describe_leg(leg: &Leg, thorough: bool) -> Value {
             "kind": "proptest programs sent to one persistent vrun process per feature set that includes logger, recording logger installed",
             "programs_requested": if thorough { 2_000_000 } else { 160_000 },
         }),
+        Leg::Sched { quick, thorough: th } => json!({
+            "kind": "schedule exploration: proptest (scenario bytes, schedule bytes) driving a byte-driven shuttle scheduler, plus seeded random and PCT schedules per scenario",
+            "scenarios_requested": if thorough { *th } else { *quick },
+            "schedules_per_scenario": 1 + if thorough { 24 } else { 8 },
+        }),
         Leg::Matrix => json!({
             "kind": "feature-matrix differential: proptest programs sent to one persistent vrun process per feature set",
             "programs_requested": if thorough { 400_000 } else { 40_000 },
@@ -242,6 +269,7 @@ pub fn run_leg(prop: &str, idx: usize, leg: &Leg, thorough: bool, deadline: Inst
             if thorough { *len_t } else { *len_q },
             deadline,
         ),
+        Leg::Sched { quick, thorough: th } => run_sched(prop, idx, if thorough { *th } else { *quick }, if thorough { 24 } else { 8 }, deadline),
         Leg::Matrix => crate::matrix::run_leg(prop, idx, thorough, deadline, false),
         Leg::MatrixLogger => crate::matrix::run_leg(prop, idx, thorough, deadline, true),
         Leg::QueueSweep { jmax_q, jmax_t } => run_sweep(prop, idx, if thorough { *jmax_t } else { *jmax_q }, deadline),
@@ -316,6 +344,14 @@ pub fn run_findings(prop: &str) -> (Vec<String>, Vec<(String, String)>, usize) {
 
 pub fn replay_special(engine: &str, v: &Value, path: &Path, _verbose: bool) -> i32 {
     match engine {
+        "sched" => {
+            let st = Command::new(Path::new(VERIF).join("build/sched/release/vsched"))
+                .args(["replay", path.to_str().unwrap()])
+                .stderr(std::process::Stdio::null())
+                .status()
+                .expect("vsched (run ./check C11 once to build it)");
+            st.code().unwrap_or(1)
+        }
         "matrix" => crate::matrix::replay(v, path),
         "matrix-logger" => crate::matrix::replay_logger(v, path),
         "queue-sweep" => {
@@ -466,5 +502,76 @@ fn run_sweep(prop: &str, idx: usize, jmax: usize, deadline: Instant) -> LegResul
     }
     res.samples.push(json!({"sweep_point": "growth level 1 (capacity 2048), 250 zero-capture closures queued, probe closure size 2040 align 8, then execute"}));
     res.extra.insert("sweep_points".into(), json!(res.evaluations));
+    res
+}
+
+fn run_sched(prop: &str, idx: usize, scenarios: u32, extra: u32, deadline: Instant) -> LegResult {
+    let nw = crate::nworkers();
+    let outdir = Path::new(VERIF).join(format!("build/work/{}-{}", prop, idx));
+    let _ = fs::remove_dir_all(&outdir);
+    fs::create_dir_all(&outdir).unwrap();
+    let exe = Path::new(VERIF).join("build/sched/release/vsched");
+    let mut kids = Vec::new();
+    for w in 0..nw {
+        let out = outdir.join(format!("v{}.json", w));
+        let wseed = crate::seed().wrapping_mul(2_654_435_761).wrapping_add(w as u64 * 97);
+        let child = Command::new(&exe)
+            .args([
+                "worker",
+                prop,
+                &wseed.to_string(),
+                &((scenarios + nw - 1) / nw).to_string(),
+                &extra.to_string(),
+                "48",
+                "96",
+                out.to_str().unwrap(),
+                &w.to_string(),
+            ])
+            .stdout(std::process::Stdio::null())
+            .stderr(std::process::Stdio::null())
+            .spawn()
+            .expect("vsched");
+        kids.push((out, child));
+    }
+    let mut res = LegResult::new();
+    for (out, mut child) in kids {
+        let st = loop {
+            match child.try_wait().unwrap() {
+                Some(st) => break Some(st),
+                None => {
+                    if Instant::now() > deadline {
+                        let _ = child.kill();
+                        let _ = child.wait();
+                        break None;
+                    }
+                    std::thread::sleep(std::time::Duration::from_millis(20));
+                }
+            }
+        };
+        match (st, fs::read(&out)) {
+            (Some(_), Ok(b)) => {
+                let v: Value = serde_json::from_slice(&b).unwrap();
+                res.evaluations += v["evaluations"].as_u64().unwrap_or(0);
+                if let Some(m) = v["classes"].as_object() {
+                    for (k, x) in m {
+                        *res.classes.entry(k.clone()).or_insert(0) += x.as_u64().unwrap_or(0);
+                    }
+                }
+                for h in v["nt"].as_array().cloned().unwrap_or_default() {
+                    res.nt.insert(h.as_u64().unwrap_or(0));
+                }
+                for s in v["samples"].as_array().cloned().unwrap_or_default() {
+                    if res.samples.len() < 3 {
+                        res.samples.push(s);
+                    }
+                }
+                if let Some(x) = v.get("violation") {
+                    res.violations.push((x["replay"].as_str().unwrap().to_string(), x["message"].as_str().unwrap().to_string()));
+                }
+            }
+            (None, _) => res.inconclusive.push("schedule-exploration worker exceeded the watchdog".into()),
+            (Some(st), Err(_)) => res.inconclusive.push(format!("schedule-exploration worker died without a report: {:?}", st)),
+        }
+    }
     res
 }
